@@ -138,7 +138,211 @@ def _labels_b(case):
     return [f"cls={case['cls']}", f"crossing={case['crossing']}", f"warm={case['warm']}"]
 
 
+# ------------------------------------------------------------------------------------------ pipelines
+def _pool_p(tier):
+    # (D, R, N data rows)
+    base = [(1, 1, 1), (2, 2, 2), (3, 1, 2), (2, 1, 3)]
+    if tier == "thorough":
+        base += [(3, 2, 1), (1, 2, 2), (2, 3, 1), (3, 3, 2)]
+    return base
+
+
+_FK = ["general", "rank_one", "linear", "constant"]
+_TERMINALS = ["log_integral", "evaluate_ln", "integrate_x", "integrate_xx", "integrate_lin", "integrate_quad_inner", "integrate_quad_outer",
+              "integrate_cubic_inner", "integrate_cubic_outer", "integrate_xAxx", "integrate_xbxx", "integrate_quartic_inner",
+              "integrate_quartic_outer", "log_factor", "entropy_kl"]
+_PIPES = ["joint_eval", "marginal_eval", "bayes_posterior", "set_y_evidence", "cond_entropies", "log_conditional",
+          "condition_on_dims", "kalman_scan", "lrbf_marginal", "lsem_log_conditional_y", "het_moments", "het_bound", "truncated"]
+
+
+def _pool_named(names):
+    """every terminal / pipe is paired with shapes in rotation, so each one is generated in every run."""
+    def pool(tier):
+        shapes = _pool_p(tier)
+        reps = 2 if tier == "quick" else 4
+        out = []
+        for r in range(reps):
+            for i, nm in enumerate(names):
+                out.append(shapes[(i + r * 3) % len(shapes)] + (nm,))
+        return out
+    return pool
+
+
+
+def _strategy_chain(shapes):
+    from .. import pipes  # noqa: F401  (imports jax; only names are used here)
+
+    @st.composite
+    def s(draw):
+        D, R, N, term = draw(st.sampled_from(shapes))
+        start = draw(st.sampled_from(gen.MEASURE_KINDS))
+        nmid = draw(st.integers(0, 3))
+        mid, shapes_ = [], dict(pipes.start_param_shapes(start, R, D))
+        Rc = R
+        for k in range(nmid):
+            op = draw(st.sampled_from(["multiply", "multiply", "hadamard", "product", "get_density", "slice"]))
+            if op in ("multiply", "hadamard"):
+                fk = draw(st.sampled_from(_FK))
+                R2 = draw(st.sampled_from([1, 2])) if op == "multiply" else draw(st.sampled_from([1, Rc]))
+                if op == "multiply" and Rc * R2 > 6:
+                    R2 = 1
+                mid.append({"op": op, "fkind": fk, "update_full": draw(st.booleans())})
+                for nm, sh in pipes.factor_param_shapes(fk, R2, D).items():
+                    shapes_[f"f{k}{nm}"] = sh
+                if op == "multiply":
+                    Rc *= R2
+            elif op == "slice":
+                idx = draw(gen.index_array(Rc, 1, 2, allow_negative=False))
+                mid.append({"op": op, "idx": idx})
+                Rc = len(idx)
+            else:
+                mid.append({"op": op})
+                if op == "product":
+                    Rc = 1
+        K = draw(st.integers(1, 2))
+        shapes_["tA"] = (K, D)
+        shapes_["tB"] = (K + 1, D)
+        P = {nm: draw(gen.arr(sh, -1.2, 1.2)) for nm, sh in sorted(shapes_.items())}
+        return {"family": "chain", "D": D, "R": R, "N": N, "start": start, "mid": mid, "terminal": term, "P": P,
+                "d": draw(gen.arr((2, N, D), -1.5, 1.5)), "w_seed": draw(st.integers(0, 10**6)),
+                "dirs": draw(st.integers(0, 10**6))}
+    return s()
+
+
+def _strategy_cond(shapes):
+    from .. import pipes
+
+    @st.composite
+    def s(draw):
+        D, R, N, pipe = draw(st.sampled_from(shapes))
+        kind = draw(st.sampled_from(["full", "diag", "identity", "identity_diag"]))
+        Dx = min(D, 2) if pipe in ("lrbf_marginal", "lsem_log_conditional_y", "het_bound", "het_moments") else D
+        Dy = Dx if kind.startswith("identity") else draw(st.integers(1, 2))
+        if pipe in ("lrbf_marginal", "lsem_log_conditional_y", "het_moments", "het_bound"):
+            kind = "full"
+            Dy = draw(st.integers(1, 2))
+        case = {"family": "cond", "pipe": pipe, "kind": kind, "Dx": Dx, "Dy": Dy, "N": N,
+                "link": draw(st.sampled_from(gen.HET_KINDS)), "dims": [Dx + Dy - 1] if Dx + Dy > 1 else [0]}
+        if pipe == "condition_on_dims" and Dx + Dy < 2:
+            case["pipe"] = "joint_eval"
+        shapes_ = pipes.cond_param_shapes(case["pipe"], Dx, Dy, kind)
+        if case["pipe"] in ("lrbf_marginal", "lsem_log_conditional_y") and "SG" not in shapes_:
+            shapes_["SG"] = (1, Dy, Dy)
+        case["P"] = {nm: draw(gen.arr(sh, -1.0, 1.0)) for nm, sh in sorted(shapes_.items())}
+        case["d"] = draw(gen.arr((2, max(N, 2) if case["pipe"] == "kalman_scan" else N, Dx + Dy), -1.5, 1.5))
+        case["w_seed"] = draw(st.integers(0, 10**6))
+        case["dirs"] = draw(st.integers(0, 10**6))
+        return case
+    return s()
+
+
+def _lcg(seed, n):
+    """deterministic pseudo-random weights in [-1,1] derived from a drawn integer (part of the case, so replayable)."""
+    out, x = [], (seed * 2654435761 + 12345) % (2**32)
+    for _ in range(n):
+        x = (1664525 * x + 1013904223) % (2**32)
+        out.append(x / 2**31 - 1.0)
+    return np.array(out)
+
+
+def _run_p(case):
+    import jax
+    import jax.numpy as jnp
+    from .. import pipes
+    from ..libx import J
+
+    fails = []
+    P = {k: J(v) for k, v in case["P"].items()}
+    dB = J(case["d"])  # [2, N, *]
+    d0 = dB[0]
+    if case["family"] == "chain":
+        F = lambda P_, d_: pipes.chain(case, P_, d_)
+        tag = f"chain[{case['terminal']}]"
+        bound = False
+    else:
+        case2 = dict(case)
+        case2["_dims_arr"] = jnp.array(case["dims"])
+        F = lambda P_, d_: pipes.cond_pipe(case2, P_, d_)
+        tag = f"pipe[{case['pipe']}" + (f":{case['link']}" if case["pipe"].startswith("het") else "") + "]"
+        bound = case["pipe"] == "het_bound"
+    ok, ref = lib(fails, tag + ".eager", lambda: np.asarray(F(P, d0)))
+    if not ok:
+        return fails
+    if not np.all(np.isfinite(ref)):
+        fails.append(Failure("excluded:nonfinite_reference", tag))
+        return fails
+    scale = 1.0 + np.abs(ref)
+    tol = 1e-6 if bound else 1e-8
+    # (ii) jit
+    ok, got = lib(fails, tag + ".jit", lambda: np.asarray(jax.jit(F)(P, d0)))
+    if ok:
+        check(fails, tag + ":jit", got, ref, scale, tol=tol)
+    # (iii) vmap over the data axis vs stacked eager calls
+    ok, ref1 = lib(fails, tag + ".eager2", lambda: np.asarray(F(P, dB[1])))
+    if ok:
+        ok, got = lib(fails, tag + ".vmap", lambda: np.asarray(jax.vmap(lambda dd: F(P, dd))(dB)))
+        if ok:
+            want = np.stack([ref, ref1])
+            check(fails, tag + ":vmap", got, want, 1.0 + np.abs(want), tol=tol)
+    # (iv) reverse-mode gradient vs central differences along drawn directions
+    w = _lcg(case["w_seed"], ref.size).reshape(ref.shape)
+    wj = J(w)
+    scal = lambda P_: jnp.sum(wj * F(P_, d0))
+    scal_fd = jax.jit(scal)  # finite differences use the jitted program (jit == eager is judged above)
+    ok, g = lib(fails, tag + ".grad", lambda: jax.grad(scal)(P))
+    if not ok:
+        return fails
+    names = sorted(P)
+    sizes = [int(np.prod(P[k].shape)) for k in names]
+    tot = sum(sizes)
+    h = 1e-5
+    resp = 0.0
+    for t in range(3):
+        dv = _lcg(case["dirs"] + 7919 * t, tot)
+        dv = dv / np.linalg.norm(dv)
+        off, Pp, Pm, gd = 0, {}, {}, 0.0
+        for k, sz in zip(names, sizes):
+            piece = dv[off:off + sz].reshape(P[k].shape)
+            off += sz
+            Pp[k] = P[k] + h * J(piece)
+            Pm[k] = P[k] - h * J(piece)
+            gk = np.asarray(g[k])
+            gd += float(np.sum(gk * piece))
+        ok, fd = lib(fails, tag + ".fd", lambda: (float(scal_fd(Pp)) - float(scal_fd(Pm))) / (2 * h))
+        if not ok:
+            return fails
+        f0 = float(np.sum(w * ref))
+        rtol = 1e-3 if bound else 1e-5
+        # variational bounds: the optimiser's variational parameters are held fixed (stop_gradient) after a fixed-point
+        # iteration stopped at 1e-5, so their gradient is exact only up to that stopping error: judged relative to the value
+        sc = max(abs(gd), abs(fd)) + (3e-2 if bound else 1e-3) * (abs(f0) + 1.0)
+        resp = max(resp, abs(fd))
+        if not np.isfinite(gd):
+            fails.append(Failure(tag + ":grad_nonfinite", f"{tag}: gradient not finite"))
+            break
+        if abs(gd - fd) > rtol * sc + 1e-9:
+            fails.append(Failure(tag + ":grad", f"{tag}: directional derivative {gd!r} vs central difference {fd!r} (rel {abs(gd-fd)/sc:.2e})"))
+            break
+    case["_resp"] = resp
+    return fails
+
+
+def _nontrivial_p(case):
+    nops = (len(case["mid"]) + 1) if case["family"] == "chain" else 2
+    return nops >= 2 and case.get("_resp", 0.0) > 0.0
+
+
+def _labels_p(case):
+    if case["family"] == "chain":
+        return [f"start={case['start']}", f"terminal={case['terminal']}", f"nmid={len(case['mid'])}"] + [f"mid={m['op']}" + (f"/{m['fkind']}" if "fkind" in m else "") for m in case["mid"]]
+    return [f"pipe={case['pipe']}", f"kind={case['kind']}"] + ([f"link={case['link']}"] if case["pipe"].startswith("het") else [])
+
+
 SUBS = [
     Sub("boundary", _pool_b, _strategy_b, _run_b, _nontrivial_b, _labels_b,
         examples={"quick": 60, "thorough": 300}, shards={"quick": 8, "thorough": 16}, rule="warm caches or R*D>=2"),
+    Sub("chains", _pool_named(_TERMINALS), _strategy_chain, _run_p, _nontrivial_p, _labels_p,
+        examples={"quick": 6, "thorough": 50}, shards={"quick": 15, "thorough": 30}, rule=">=2 ops and non-zero finite-difference response"),
+    Sub("cond_pipes", _pool_named(_PIPES), _strategy_cond, _run_p, _nontrivial_p, _labels_p,
+        examples={"quick": 6, "thorough": 50}, shards={"quick": 13, "thorough": 26}, rule="non-zero finite-difference response"),
 ]
